@@ -22,6 +22,23 @@ Theorem confined_interleaving_deterministic :
 Proof. exact interleaving_deterministic. Qed.
 Print Assumptions confined_interleaving_deterministic.
 
+(* the same as a statement about two schedules: whatever the other goroutines do and however the scheduler interleaves
+   them, a goroutine that got the same number of turns has produced the same results and private state *)
+Theorem confined_schedule_independent :
+  forall (sh st out : Type) (s : sh) (progs : thread -> list (op sh st out)) (privs : thread -> st)
+         (sched sched' : list thread) (t : thread),
+    turns t sched = turns t sched' ->
+    t_outs (run s sched (initial progs privs) t) = t_outs (run s sched' (initial progs privs) t)
+    /\ t_priv (run s sched (initial progs privs) t) = t_priv (run s sched' (initial progs privs) t).
+Proof.
+  intros sh st out s progs privs sched sched' t E.
+  pose proof (confined_interleaving_deterministic sh st out s progs privs sched t) as H.
+  pose proof (confined_interleaving_deterministic sh st out s progs privs sched' t) as H'.
+  cbv zeta in H, H'. destruct H as (A & B & _). destruct H' as (A' & B' & _).
+  rewrite A, A', B, B', E. split; reflexivity.
+Qed.
+Print Assumptions confined_schedule_independent.
+
 (* ... in particular a thread that was given enough turns has observed exactly the results of its whole program run alone *)
 Theorem confined_complete_schedule :
   forall (sh st out : Type) (s : sh) (progs : thread -> list (op sh st out)) (privs : thread -> st)
